@@ -14,25 +14,26 @@ VARIABLES
   triggers,             \* bag (sequence) of [len, vn] : datagrams the server could not route, not yet answered
   pendingKind,          \* FIFO of datagrams the server has handed to its socket and the network has not shown yet:
                         \* [kind |-> "conn" | "sr" | "vn" | "retry", len |-> bytes (connection datagrams) ]
+  answered,             \* number of endpoint-level replies sent so far
   clientInitial         \* the client has written an Initial packet into the datagram being built
-avars == <<rcvd, sentB, valid, triggers, pendingKind, clientInitial>>
-AInit == rcvd = <<>> /\ sentB = <<>> /\ valid = {} /\ triggers = <<>> /\ pendingKind = <<>> /\ clientInitial = FALSE
-AReset == rcvd' = <<>> /\ sentB' = <<>> /\ valid' = {} /\ triggers' = <<>> /\ pendingKind' = <<>> /\ clientInitial' = FALSE
+avars == <<rcvd, sentB, valid, triggers, pendingKind, clientInitial, answered>>
+AInit == rcvd = <<>> /\ sentB = <<>> /\ valid = {} /\ triggers = <<>> /\ pendingKind = <<>> /\ clientInitial = FALSE /\ answered = 0
+AReset == rcvd' = <<>> /\ sentB' = <<>> /\ valid' = {} /\ triggers' = <<>> /\ pendingKind' = <<>> /\ clientInitial' = FALSE /\ answered' = 0
 Get(f, k) == IF k \in DOMAIN f THEN f[k] ELSE 0
 Put(f, k, v) == [x \in DOMAIN f \cup {k} |-> IF x = k THEN v ELSE f[x]]
 
-ServerRx(conn, len) == rcvd' = Put(rcvd, conn, Get(rcvd, conn) + len) /\ UNCHANGED <<sentB, valid, triggers, pendingKind, clientInitial>>
-ServerValidated(conn) == valid' = valid \cup {conn} /\ UNCHANGED <<rcvd, sentB, triggers, pendingKind, clientInitial>>
+ServerRx(conn, len) == rcvd' = Put(rcvd, conn, Get(rcvd, conn) + len) /\ UNCHANGED <<sentB, valid, triggers, pendingKind, clientInitial, answered>>
+ServerValidated(conn) == valid' = valid \cup {conn} /\ UNCHANGED <<rcvd, sentB, triggers, pendingKind, clientInitial, answered>>
 \* the server starts a datagram of a connection
 ServerTx(conn, len) ==
   /\ conn \in valid \/ Get(sentB, conn) < 3 * Get(rcvd, conn)
   /\ sentB' = Put(sentB, conn, Get(sentB, conn) + len)
   /\ pendingKind' = Append(pendingKind, [kind |-> "conn", len |-> len])
-  /\ UNCHANGED <<rcvd, valid, triggers, clientInitial>>
+  /\ UNCHANGED <<rcvd, valid, triggers, clientInitial, answered>>
 
 \* a datagram reached the server but belongs to no connection
-Unroutable(len, isVn) == triggers' = Append(triggers, [len |-> len, vn |-> isVn]) /\ UNCHANGED <<rcvd, sentB, valid, pendingKind, clientInitial>>
-Announce(kind) == pendingKind' = Append(pendingKind, [kind |-> kind, len |-> 0]) /\ UNCHANGED <<rcvd, sentB, valid, triggers, clientInitial>>
+Unroutable(len, isVn) == triggers' = Append(triggers, [len |-> len, vn |-> isVn]) /\ UNCHANGED <<rcvd, sentB, valid, pendingKind, clientInitial, answered>>
+Announce(kind) == pendingKind' = Append(pendingKind, [kind |-> kind, len |-> 0]) /\ UNCHANGED <<rcvd, sentB, valid, triggers, clientInitial, answered>>
 Remove(s, i) == [j \in 1..(Len(s) - 1) |-> IF j < i THEN s[j] ELSE s[j + 1]]
 \* the datagram of an endpoint-level reply leaves the server
 \* a datagram leaves the server: it is the oldest one handed to the socket
@@ -40,18 +41,22 @@ ServerDatagram(len) ==
   /\ Len(pendingKind) > 0
   /\ LET h == Head(pendingKind) IN
      IF h.kind = "conn" THEN h.len = len /\ triggers' = triggers
-     ELSE \E i \in 1..Len(triggers) :
-            /\ CASE h.kind = "sr" -> len < triggers[i].len                       \* strictly smaller than its trigger
-                 [] h.kind = "vn" -> triggers[i].len >= 1200 /\ ~triggers[i].vn   \* only for full-size datagrams, never for VN
-                 [] OTHER -> TRUE
-            /\ triggers' = Remove(triggers, i)
+     ELSE \* some unroutable datagram received before explains the reply, and there are never more replies than triggers
+          \* (the pairing itself is not fixed, which keeps the check deterministic)
+          /\ (\E i \in 1..Len(triggers) :
+                CASE h.kind = "sr" -> len < triggers[i].len                       \* strictly smaller than its trigger
+                  [] h.kind = "vn" -> triggers[i].len >= 1200 /\ ~triggers[i].vn   \* only for full-size datagrams, never for VN
+                  [] OTHER -> TRUE) = TRUE
+          /\ answered < Len(triggers)
+          /\ triggers' = triggers
   /\ pendingKind' = Tail(pendingKind)
+  /\ answered' = IF Head(pendingKind).kind = "conn" THEN answered ELSE answered + 1
   /\ UNCHANGED <<rcvd, sentB, valid, clientInitial>>
 
-ClientWroteInitial == clientInitial' = TRUE /\ UNCHANGED <<rcvd, sentB, valid, triggers, pendingKind>>
+ClientWroteInitial == clientInitial' = TRUE /\ UNCHANGED <<rcvd, sentB, valid, triggers, pendingKind, answered>>
 \* known finding F4 (named): a client CONNECTION_CLOSE datagram that still carries an Initial packet is not padded
 ClientDatagram(len, closing) ==
   /\ clientInitial => (len >= 1200 \/ (KnownF4 /\ closing /\ PrintT(<<"KNOWN-FINDING", "F4">>)))
   /\ clientInitial' = FALSE
-  /\ UNCHANGED <<rcvd, sentB, valid, triggers, pendingKind>>
+  /\ UNCHANGED <<rcvd, sentB, valid, triggers, pendingKind, answered>>
 =============================================================================
